@@ -85,7 +85,7 @@ type ContractSet struct {
 	Order   []string
 }
 
-var kwRe = regexp.MustCompile(`^(func|trusted|spec|opaque|declare|axiom|lemma|constglobal|props|requires|reveal|domain|ensures|assigns|loop|inline|light|assert|rely|pure|stable|ghost|maypanic|note)\b`)
+var kwRe = regexp.MustCompile(`^(func|trusted|spec|opaque|declare|axiom|lemma|constglobal|props|requires|reveal|domain|ensures|assigns|loop|inline|light|assert|reach|rely|pure|stable|ghost|maypanic|note)\b`)
 var nameRe = regexp.MustCompile(`^\[([A-Za-z0-9_\-:#.]+)\]\s*`)
 
 func newContractSet() *ContractSet {
@@ -278,8 +278,11 @@ func (cs *ContractSet) readContractFile(path, pkgPath string) error {
 			}
 			c.Loop = n
 			cur.Loops[n] = append(cur.Loops[n], c)
-		case "assert":
+		case "assert", "reach":
 			// assert[name] <anchor> : expr
+			// reach[name] <anchor> : expr   -- the anchored instruction can be reached with expr
+			// true (a satisfiability obligation: it fails when the path has become infeasible,
+			// e.g. because the branch that leads there can no longer be taken)
 			if cur == nil {
 				return fail("assert outside func")
 			}
@@ -298,6 +301,9 @@ func (cs *ContractSet) readContractFile(path, pkgPath string) error {
 			}
 			c.Name = name
 			c.At = strings.TrimSpace(rest[:i])
+			if word == "reach" {
+				c.Kind = "reach"
+			}
 			cur.Asserts = append(cur.Asserts, c)
 		case "rely":
 			// rely[name] after select[#k] [havoc lv, lv] : expr
